@@ -318,6 +318,10 @@ pub struct Engine<'a> {
     /// light sweep (Miri / valgrind): look up only the class just operated on and one other
     pub light: bool,
     pub focus: u32,
+    /// quiet history: the per-step sweep only iterates; the by-key lookups of every class run on every 16th
+    /// step only.  Lookups are operations too - a container that caches something about its last lookup is
+    /// put into the same state by every full sweep, and what goes stale between two USER calls stays hidden.
+    pub quiet: bool,
 }
 
 // `m.get(q)` in a generic context makes rustc pick the `K: Borrow<KeyF::Q>` where-clause
@@ -562,6 +566,9 @@ impl<'a> Engine<'a> {
         s.order.clear();
         s.order.extend(seen.iter().map(|x| x.0));
         if self.h.failed {
+            return;
+        }
+        if self.quiet && self.h.step % 16 != 0 {
             return;
         }
         // lookups for every class of the universe, by borrowed form and by key
@@ -2390,6 +2397,72 @@ pub fn unit_value_fmt_probe(cx: &mut Ctx, hist: u64) {
     }
 }
 
+/// Zero-sized VALUE types of different alignments: `()` (align 1), an over-aligned marker (align 16: the pair
+/// stride is 16 bytes although key + value occupy 4) and `[u64; 0]` (align 8).  Debug of the map and of every
+/// iterator kind, fresh and partly consumed, against what the iterator still yields afterwards.
+#[derive(Clone, Copy, Debug, Default, PartialEq)]
+#[repr(align(16))]
+pub struct Marker16;
+pub fn zero_sized_value_fmt_probe<V: Copy + Default + std::fmt::Debug + 'static>(cx: &mut Ctx, hist: u64, vname: &str) {
+    ledger::set_ctx(hist, 0, "fmt(zero-sized values)");
+    let mut rng = cx.hist_rng(hist ^ 0x0A11_6E0D);
+    let n = rng.usize_below(5);
+    let mut m: Map<u32, V, 4> = Map::new();
+    for i in 0..n {
+        m.insert(0xA1 + 0x11 * (i as u32), V::default());
+    }
+    if n > 2 && rng.chance(1, 2) {
+        let k = *m.keys().next().unwrap();
+        m.remove(&k);
+    }
+    let len = m.len();
+    let refs: Vec<(&u32, &V)> = m.iter().collect();
+    for alt in [false, true] {
+        cx.rep.evaluations += 1;
+        let got = if alt { format!("{:#?}", m) } else { format!("{:?}", m) };
+        let want = if alt { format!("{:#?}", StdMap(&refs)) } else { format!("{:?}", StdMap(&refs)) };
+        if got != want {
+            ledger::violation("C19", "map-debug@fmt(zero-sized values)", format!("Debug (alternate={}) of a Map<u32,{},4> with {} entries is `{}`, expected `{}`", alt, vname, len, got, want));
+        }
+    }
+    let j = rng.usize_below(len + 2);
+    macro_rules! probe {
+        ($what:expr, $mk:expr) => {{
+            let mut it = $mk;
+            for _ in 0..j {
+                let _ = it.next();
+            }
+            cx.rep.evaluations += 1;
+            let got = format!("{:?}", it);
+            let mut want: Vec<String> = it.map(|x| format!("{:?}", x).chars().filter(|c| !c.is_whitespace()).collect()).collect();
+            want.sort();
+            match parse_listing(&got) {
+                Some(g) if g == want => {}
+                _ => ledger::violation("C19", "iterator-debug@fmt(zero-sized values)", format!("Debug of {} of a Map<u32,{},4> with {} entries after {} next() calls is `{}`; the entries it yields afterwards are {:?}", $what, vname, len, j, got, want)),
+            }
+        }};
+    }
+    probe!("Keys", m.keys());
+    probe!("Values", m.values());
+    probe!("Iter", m.iter());
+    probe!("IntoKeys", m.clone().into_keys());
+    probe!("IntoValues", m.clone().into_values());
+    probe!("IntoIter", m.clone().into_iter());
+    {
+        let mut c = m.clone();
+        probe!("Drain", c.drain());
+    }
+    {
+        let mut c = m.clone();
+        probe!("ValuesMut", c.values_mut());
+        probe!("IterMut", c.iter_mut());
+    }
+    cx.rep.hit("fmt:zero-sized-values");
+    if ledger::viol_total() > 0 {
+        cx.rep.absorb_violations("C19", &|| vec![format!("zero-sized value rendering probe ({}), history {}", vname, hist)]);
+    }
+}
+
 pub fn required_rows(prop: &str) -> Vec<&'static str> {
     match prop {
         "C01" => vec!["insert", "insert_key_value", "checked_insert", "get_mut", "index", "index_mut", "remove", "remove_entry", "retain", "clear", "drain"],
@@ -2418,7 +2491,12 @@ pub fn history<F: Fam, const N: usize>(cx: &mut Ctx, hist: u64, mut rng: Rng, ma
         universe: if <F::K as KeyF>::norm(7) != 7 { 1 } else { N as u32 + 3 },
         light: false,
         focus: 1,
+        quiet: false,
     };
+    e.quiet = e.rng.chance(1, 4);
+    if e.quiet {
+        e.cx.rep.hit("quiet-history");
+    }
     e.light = e.cx.args.flag("light");
     e.h.retag_unchecked = e.cx.prop == "C18";
     e.h.own_prop = e.cx.prop.clone();
@@ -2436,6 +2514,9 @@ pub fn history<F: Fam, const N: usize>(cx: &mut Ctx, hist: u64, mut rng: Rng, ma
     e.run_history::<F, N>(max_steps);
     if prop == "C19" && hist % 16 == 0 {
         unit_value_fmt_probe(cx, hist);
+        zero_sized_value_fmt_probe::<()>(cx, hist, "()");
+        zero_sized_value_fmt_probe::<Marker16>(cx, hist, "Marker16(align 16)");
+        zero_sized_value_fmt_probe::<[u64; 0]>(cx, hist, "[u64; 0]");
     }
     if F::NAME == "zst" && hist % 4 == 0 && matches!(prop.as_str(), "C01" | "C02" | "C05" | "C09" | "C10" | "C15" | "C18") {
         zst_pair_probe(cx, hist);
